@@ -1,0 +1,12 @@
+//go:build verif
+
+package match
+
+// VerifSetMatch sets the case sensitivity otherwise fixed at init.
+func VerifSetMatch(caseInsensitive bool) {
+	if caseInsensitive {
+		match = CASE_INSENSITIVE
+	} else {
+		match = CASE_SENSITIVE
+	}
+}
